@@ -13,6 +13,7 @@ import (
 	"context"
 	"io/fs"
 	"math/rand"
+	"slices"
 	"strconv"
 	"time"
 
@@ -125,6 +126,26 @@ func (db *DB) DeleteChannels(chs []ChannelKey) (err error) {
 		}
 		err = errors.Combine(err, errRemove)
 	}()
+
+	// Refuse the whole request before removing anything if it would leave an index channel
+	// indexing a channel that is not part of the request. removeChannel refuses that index
+	// channel too, but only after the channels before it have been removed, and the callers
+	// that keep metadata about channels cannot undo those removals.
+	for _, ch := range chs {
+		udb, ok := db.mu.dbs.unary[ch]
+		if !ok || !udb.Channel().IsIndex {
+			continue
+		}
+		for otherKey, otherDB := range db.mu.dbs.unary {
+			if otherKey != ch && otherDB.Channel().Index == ch && !slices.Contains(chs, otherKey) {
+				return errors.Newf(
+					"cannot delete channel %v because it indexes data in channel %v",
+					udb.Channel(),
+					otherDB.Channel(),
+				)
+			}
+		}
+	}
 
 	// Do a pass first to remove all non-index channels
 	for _, ch := range chs {
